@@ -153,7 +153,8 @@ def r2(run):
         m = a.meta or {}
         cid = F.json_src(m["command_id"]) if "command_id" in m else None
         fid = F.json_src(m["frame_id"]) if "frame_id" in m else None
-        ok_c = cid is not None and any(y[0] == "field" and y[1][0] == "env" and "command" in str(y[2]) and str(y[2]).endswith("id") for y in walk(cid))
+        ok_c = cid is not None and (any(y[0] == "field" and y[1][0] == "env" and "command" in str(y[2]) and str(y[2]).endswith("id") for y in walk(cid)) or
+                                    (q.last_field(cid) == "id" and any(y[0] == "field" and y[1][0] == "env" and str(y[2]) == "command" for y in walk(cid))))
         ok_f = fid is not None and q.last_field(fid) == "id" and any(y[0] == "field" and y[1][0] == "env" and y[2] == "frame" for y in walk(fid))
         run.ob(MOD + "::execute_command|worker|stamps|%s" % k, ok_c and ok_f, a.call.sp, ".%s carries command_id = definition id and frame_id = call id (%s)" % (k, sorted(m)),
                reason="unstamped-command-frame")
